@@ -13,6 +13,8 @@ struct nv_state
   _Bool    valid;     /* abstraction of valid(): value, point, gradient, constraint values all finite */
   double   m_fx;      /* the function value */
   double   dg;        /* ghost: m_gx . descent for the (single, fixed) descent direction of the harness */
+  double   feas;      /* ghost: constraint violation max(|h(x)|_inf, |max(0, g(x))|_inf) at this state's point (a function of the point) */
+  uint64_t cons_ver;  /* ghost: `ver` for which the stored constraint values (m_ceq, m_cineq) were recomputed */
   double   gtest;     /* ghost: value of gradient_test() on this state's own (m_fx, m_gx): fixed by the evaluation */
   int32_t  m_status;
   int64_t  m_fcalls, m_gcalls;
